@@ -315,7 +315,10 @@ func runC05Script(rt *rapid.T) {
 			// Let time pass. Two timers can end the link: T7 counts from the latest entry to NotSelected
 			// (and never hits a Selected session); an active endpoint's own unanswered Select.req is a
 			// failed control transaction after T6 (a communications failure in any state).
-			remaining := c05T7 + 50*time.Millisecond
+			// The dwell is a fraction of T7 or a little more than T7: short dwells between a connect, a
+			// select and a deselect separate the instants at which the successive T7s were armed, so
+			// that a timer that should have been cancelled expires visibly earlier than the live one.
+			remaining := rapid.SampledFrom([]time.Duration{c05T7 / 4, c05T7 / 2, c05T7 + 50*time.Millisecond, c05T7 + 50*time.Millisecond}).Draw(rt, "dwellFor")
 			var dl time.Time
 			if !selected {
 				dl = nsSince.Add(c05T7)
